@@ -30,11 +30,33 @@ def main():
 def gen_schema(rnd, depth=0):
     k = rnd.random()
     if depth >= 3 or k < 0.3:
-        return ("bool",) if rnd.random() < 0.4 else ("intmod", rnd.choice([2, 3, 4, 5, 7, 8, 9, 16, 17, 100, 255, 256, 1000, 2 ** 31 - 1, 2 ** 32 + 1, 2 ** 50 + 1, 2 ** 53 + 1,
+        return ("bool",) if rnd.random() < 0.4 else ("intmod", rnd.choice([1, 2, 3, 4, 5, 7, 8, 9, 16, 17, 100, 255, 256, 1000, 2 ** 31 - 1, 2 ** 32 + 1, 2 ** 50 + 1, 2 ** 53 + 1,
                                                                                   2 ** 60 + 1, 2 ** 64 + 13, 2 ** 64 - 1, 2 ** 100 + 7]))
     if k < 0.7:
         return ("list", [gen_schema(rnd, depth + 1) for _ in range(rnd.randint(1, 3))])
     return ("repeat", gen_schema(rnd, depth + 1), rnd.randint(1, 3))
+
+
+def no_trailing_zero_width(s):
+    """PackIntMod(1) has no bits; the library looks at the bit at the field's position to tell secret from plain, so a zero-width
+    field at the very end of the bit list has nothing to look at (DESIGN 6.7) - it is generated in front of other fields only"""
+    if s[0] == "intmod":
+        return ("intmod", 2) if s[1] == 1 else s
+    if s[0] == "bool":
+        return s
+    if s[0] == "list":
+        return ("list", s[1][:-1] + [no_trailing_zero_width(s[1][-1])])
+    return ("repeat", no_trailing_zero_width(s[1]), s[2])
+
+
+def no_zero_width(s):
+    if s[0] == "intmod":
+        return ("intmod", 2) if s[1] == 1 else s
+    if s[0] == "bool":
+        return s
+    if s[0] == "list":
+        return ("list", [no_zero_width(x) for x in s[1]])
+    return ("repeat", no_zero_width(s[1]), s[2])
 
 
 def schema_src(s):
@@ -208,11 +230,14 @@ def worker(job):
             R.count("width_enforced_sat" if sat else "width_enforced_unsat")
     # ---------------- pack half ---------------------------------------------------------------------------
     for _ in range(job["n"]):
-        s = gen_schema(rnd)
+        s = no_trailing_zero_width(gen_schema(rnd))
         v = gen_value(s, rnd)
         bl = rnd.choice([8, 12, 16])
         p = rnd.choice(moduli)
         secret = rnd.choice([True, True, False, "mixed"])
+        if secret is not False:
+            s = no_zero_width(s)          # secret zero-width fields are not supported by the library at all (DESIGN 6.7)
+            v = gen_value(s, rnd)
         bool_as = rnd.choice(["PrivVal", "PrivVal", "PrivValBool"])
         ssrc = schema_src(s)
         big = max([x[0][1] for x in leaves(s, v, []) if x[0][0] == "intmod"] + [2])
@@ -264,8 +289,17 @@ def worker(job):
         enc = rnd.choice([rnd.randrange(mod), mod - 1, 0] + ([mod, rnd.randrange(mod, 1 << nb), (1 << nb) - 1] if (1 << nb) > mod else []))
         kind = rnd.choice(["PrivVal", "PrivValBool", "mixed-secret", "secret-then-plain", "plain-then-secret"])
         srcs = []
+        nonbit = rnd.random() < 0.15 and kind in ("PrivVal", "secret-then-plain") and nb > 0
+        nonbit_at = rnd.randrange(nb) if nonbit else -1
+        enc0 = enc
         for ix in range(nb):
-            b = (enc >> ix) & 1
+            b = (enc0 >> ix) & 1
+            if ix == nonbit_at:
+                # a plain secret wire used as a bit without being one: what counts is the value the bits add up to
+                nb_val = rnd.choice([2, 5, 3, 4])
+                enc += (nb_val - b) * (1 << ix)
+                srcs.append("PrivVal(%d)" % nb_val)
+                continue
             k = kind
             if kind == "mixed-secret":
                 k = rnd.choice(["PrivVal", "PrivValBool"])
@@ -280,7 +314,7 @@ def worker(job):
         R.case(cell="unpack-supplied-bits|%s|%s" % (kind, "oob" if enc >= mod else "in"), key=(src, bl))
         det = dict(src=src, inputs=[], bl=bl, p=out.snap["p"])
         first_secret = not srcs[0].isdigit()
-        if enc < mod:
+        if 0 <= enc < mod:
             R.count("unpack_supplied_bits_in_range")
             if out.exc is not None:
                 R.violation("unpack-in-range-raised", "bits encoding %d for PackIntMod(%d): %s" % (enc, mod, repr(out.exc)[:100]), **det)
